@@ -196,6 +196,8 @@ type refRecvCfg struct {
 	// Stall: after the end marker was seen and every request was handed to the stream, stop reading
 	// (a blocked/slow peer) until the stream is torn down
 	Stall bool
+	// Inline: requests and FIN are sent from the reading loop itself (a single-threaded peer: nothing is read while a send is pending)
+	Inline bool
 }
 
 type refRecvResult struct {
@@ -242,6 +244,14 @@ func runRefReceiver(ep *endpoint, cfg refRecvCfg) *refRecvResult {
 		}
 	}()
 	enqueue := func(p *types.Packet) {
+		if cfg.Inline {
+			if err := ep.SendMsg(p); err != nil {
+				mu.Lock()
+				sendFailed = true
+				mu.Unlock()
+			}
+			return
+		}
 		mu.Lock()
 		outq = append(outq, p)
 		cond.Broadcast()
